@@ -396,6 +396,8 @@ pub struct Gen<'a> {
     fresh: usize,
     pub used_idents: Vec<String>,
     depth_nested: usize,
+    /// C20: leaves may render one of the program's own symbol literals as text (`:ka ~# ""`)
+    pub render_own: bool,
     /// `$` is known to be unit, a symbol-keyed pair or a list of symbol-keyed pairs here
     dollar_keyed: bool,
     /// list constructors are disabled (the value may become `$`, and SimpleGarnishData cannot look
@@ -415,7 +417,7 @@ const WORDS: [&str; 8] = ["a", "abc", "hello", "x y", "Zed", "q1", "lorem", "w"]
 
 impl<'a> Gen<'a> {
     pub fn new(rng: &'a mut Rng, cfg: GenCfg) -> Self {
-        Gen { rng, cfg, fresh: 0, used_idents: vec![], depth_nested: 0, dollar_keyed: true, no_list: 0, no_dollar: 0, dollar_concat: 0, empty_nested: false }
+        Gen { rng, cfg, fresh: 0, used_idents: vec![], depth_nested: 0, dollar_keyed: true, no_list: 0, no_dollar: 0, dollar_concat: 0, empty_nested: false, render_own: false }
     }
 
     /// tell the generator what the run's input value will look like
@@ -641,6 +643,7 @@ impl<'a> Gen<'a> {
             c.w_unary,                                 // 21
             if in_nested && budget >= 4 { c.w_seq } else { 0 }, // 22 (seq inside a nested expression)
             3,                                         // 23 leaf
+            if self.render_own { 2 } else { 0 },       // 24 own symbol literal rendered as text
         ];
         match self.rng.weighted(&w) {
             0 => {
@@ -868,6 +871,20 @@ impl<'a> Gen<'a> {
                 G::Prefix(op, Box::new(self.expr(budget - 1)))
             }
             22 => self.seq(budget),
+            24 => {
+                // a symbol the program itself spells out, rendered as text: its name comes from the symbol-name
+                // table, where this program's own build has put it whatever else the data object holds
+                let k = self.key();
+                let k2 = self.key();
+                let n = self.rng.below(9);
+                let target = match self.rng.below(4) {
+                    0 => format!(":{}", k),
+                    1 => format!("(:{} = {})", k, n),
+                    2 => format!(":{}.{}", k, k2),
+                    _ => format!("(:{}, {})", k, n),
+                };
+                G::bin("~#", G::Atom(target), G::atom("\"\""))
+            }
             _ => self.leaf(),
         }
     }
